@@ -42,6 +42,14 @@ class CancelCtx:
                 aw.append(r)
         if aw:
             await asyncio.gather(*aw, return_exceptions=True)
+        # like IncrementalExecutor.cancel_incremental_work: every stream item queue ever created
+        aw = []
+        for q in self.world.queues:
+            r = q.abort(reason)
+            if r is not None and hasattr(r, "__await__"):
+                aw.append(r)
+        if aw:
+            await asyncio.gather(*aw, return_exceptions=True)
         if self.world.early:
             # pending_incremental_futures of the real executor: every early-primed computation
             futs = [c.pending_future for c in self.world.computations]
@@ -56,6 +64,25 @@ class CancelCtx:
         sim = self.world.sim
         self.hook_pending = [e.label for e in sim.externals
                              if e.kind != "gate" and e.is_pending()][:5]
+
+
+def _provenance(spec, world, leaked):
+    """How a leaked stream came into being (W2 knows its own graph)."""
+    def in_work(ws):
+        return ws is not None and leaked in ws.streams
+
+    if in_work(spec.initial):
+        return "initial"
+    for t in spec.all_tasks:
+        if in_work(t.nested):
+            return "child_of_task"
+    for s in spec.all_streams:
+        for i, ws in s.item_work.items():
+            if in_work(ws):
+                if (s.sid, i) in world.pushed:
+                    return "in_item_handed_to_queue"
+                return "in_item_held_by_producer"
+    return "?"
 
 
 def run_unit(seed=None, unit=None, tier="quick", stats=None, prop="C06"):
@@ -158,12 +185,15 @@ def run_unit(seed=None, unit=None, tier="quick", stats=None, prop="C06"):
                 qn = getattr(left[0].get_coro(), "__qualname__", "?")
                 # was the stream whose producer leaked ever known to the scheduler?
                 announced = "?"
+                provenance = "?"
                 for ss in spec.all_streams:
                     q = ss.queue
                     if q is not None and getattr(q, "_producer_task", None) is left[0]:
                         announced = ss.label in ann_labels
+                        provenance = _provenance(spec, world, ss)
                 vs.append(Violation(prop, "orphan_task", dict(fp, coroutine=qn,
                                                               site=await_site(left[0]),
+                                                              provenance=provenance,
                                                               stream_announced=announced),
                                     {"tasks": [getattr(t.get_coro(), "__qualname__", "?")
                                                for t in left][:6]}))
